@@ -6,6 +6,9 @@ open Driver ScionTime.Provider
   prov.new <t>                     -> ok                      NewProvider() at t
   prov.cur <t>                     -> ok <id> <nb> <na>       Current() at t
   prov.get <id> <t>                -> ok <id> <nb> <na> | ok none
+  prov.curs <n> <step> <t>         -> ok <changes> <minIdStep> <first key> | <last key>
+        n calls of Current() at t, t+step, …: how many calls returned another key than the call
+        before, and the smallest id difference over those (0 if none)
   prov.par <t> (c | g:<id>)+       -> ok <ans> | <ans> | …    calls at the same instant t
  users of the provider (Model/Provider.lean `Use`; the harness runs the real newNTSKEMsg and the
  real IP listeners of core/server under the virtual clock):
@@ -50,6 +53,16 @@ def runOps (s : State) : List Op → State × List String
     let q := runOps r.1 rest
     (q.1, fmtAns r.2 :: q.2)
 
+/-- the remaining calls of a `prov.curs` run (accumulators: previous key, changes, minimal id step). -/
+def cursLoop : Nat → State → Int → Int → Key → Nat → Int → State × Key × Nat × Int
+  | 0, s, _, _, prev, ch, ms => (s, prev, ch, ms)
+  | n + 1, s, t, stp, prev, ch, ms =>
+    let r := current std s t t
+    if r.2.id ≠ prev.id ∨ r.2.nb ≠ prev.nb then
+      let d := r.2.id - prev.id
+      cursLoop n r.1 (t + stp) stp r.2 (ch + 1) (if ch = 0 ∨ d < ms then d else ms)
+    else cursLoop n r.1 (t + stp) stp r.2 ch ms
+
 def stepD (st : St) (toks : List String) : St × String :=
   match toks with
   | ["prov.new", t] =>
@@ -64,6 +77,16 @@ def stepD (st : St) (toks : List String) : St × String :=
         ({ st with s := some r.1, last := t }, "ok " ++ fmtKey r.2)
       else (st, "bad-op")
     | _, _ => (st, "bad-op")
+  | ["prov.curs", n, stp, t] =>
+    match st.s, n.toNat?, parseInt? stp, parseInt? t with
+    | some s, some n, some stp, some t =>
+      if 1 ≤ n ∧ n ≤ 1048576 ∧ 0 ≤ stp ∧ st.last ≤ t ∧ t + (n - 1 : Nat) * stp ≤ 9223372036854775807 then
+        let r0 := current std s t t
+        let r := cursLoop (n - 1) r0.1 (t + stp) stp r0.2 0 0
+        ({ st with s := some r.1, last := t + (n - 1 : Nat) * stp },
+          s!"ok {r.2.2.1} {r.2.2.2} {fmtKey r0.2} | {fmtKey r.2.1}")
+      else (st, "bad-op")
+    | _, _, _, _ => (st, "bad-op")
   | ["prov.get", id, t] =>
     match st.s, parseInt? id, parseInt? t with
     | some s, some id, some t =>
